@@ -527,9 +527,9 @@ def c18_mapfile(w, ev, slot):
         h = V.crc(salt, i)
         fields = {
             'Treatment': ['Control', 'Fast', '"Quoted"', 'x y'][h % 4],
-            'Depth': ['12', '7', 'n/a', '003', '9007199254740993', '3.5'][
-                (h >> 2) % 6],
-            'pH': ['6.5', '7', 'unknown', '1e-3'][(h >> 4) % 4],
+            'Depth': ['12', '7', 'n/a', '003', '9007199254740993', '3.5',
+                      '-5', '+7'][(h >> 2) % 8],
+            'pH': ['6.5', '7', 'unknown', '1e-3', '-0.5', '+2'][(h >> 4) % 6],
             'taxonomy': ['k__A; p__B', 'k__A;p__C; g__D', 'Unassigned'][
                 (h >> 6) % 3],
             'Paths': ['a;b|c;d', 'x', 'm; n | o'][(h >> 8) % 3],
